@@ -194,7 +194,7 @@ theorem C09_decode_nested_json_to_flat_partial (a : Bool) (t : List Desc) (hq : 
   have htree : w.tree = .ok w.nodes := by
     unfold Wired.tree Wired.fuel
     rw [htab]
-    exact resolveList_plain o (2 * w.st.next + 2) ⟨by omega, fun _ => by omega⟩ w.nodes hp
+    exact resolveList_plain o (2 * w.st.next + 3) ⟨by omega, fun _ => by omega⟩ w.nodes hp
   obtain ⟨js, hj⟩ := renderNodes_plain o (by omega) w.nodes hp
   have hflat := C09_nested_json_to_flat_partial t o w w.nodes js hw hs htree hj
   have hwire : wire t o = .ok w.nodes := by unfold wire; rw [hw]; exact htree
